@@ -276,3 +276,71 @@ PROPERTIES["C14"] = {"run": _c14, "assumptions": [
     "the theorems cover the try/except/finally control flow of World.run and the shutdown loop under the hypothesis that stop() of every simulator returns",
     "processes, sockets, the stop timeout, promptness and pending asyncio tasks are decided by the fault enumeration on the real code only",
     "fault kinds: exception in a handler (local and remote) and process exit (remote); a silently hanging simulator is outside the property ('simulators that fail')"]}
+
+
+def _c04(o, driver, rng):
+    import determinism as dt, sched_corr as scorr, monitors_sched as ms, common
+    quick = o.tier == "quick"
+    # the model <-> code tie
+    res = scorr.run_sched_suite(driver, rng, 100 if quick else 1500, 3 if quick else 6)
+    o.suites.append(res)
+    # 1. every interleaving of small scenarios
+    n_small, limit = (25, 120) if quick else (400, 3000)
+    total = complete = 0
+    for _ in range(n_small):
+        sc = dt.small_scenario(rng)
+        n, comp, v = dt.check_scenario_interleavings(sc, limit)
+        total += n
+        complete += bool(comp)
+        if v:
+            v["finding"] = ms.c03_class(sc)
+            o.violations.append(v)
+    o.monitor_stats["interleavings_run"] = total
+    o.monitor_stats["scenarios_with_all_interleavings_enumerated"] = complete
+    # 2. lazy x cache x debug, 3. start orders
+    runs = 0
+    n_cross = 40 if quick else 600
+    k = 0
+    while k < n_cross:
+        sc = scorr.gen_scenario(rng)
+        if scorr.nonuniform_cutoff(sc, False):
+            continue
+        k += 1
+        v, r = dt.cross_config(sc, rng)
+        runs += r
+        o.violations.extend(v)
+        r2, v2 = dt.check_start_orders(sc, rng)
+        runs += r2
+        if v2:
+            o.violations.append(v2)
+    o.monitor_stats["cross_configuration_runs"] = runs
+    # 4. in-process vs. subprocess transport
+    n_remote = 3 if quick else 40
+    k = 0
+    while k < n_remote:
+        sc = scorr.gen_scenario(rng)
+        if scorr.nonuniform_cutoff(sc, False) or len(sc["sims"]) > 3:
+            continue
+        k += 1
+        v = dt.check_remote(sc, rng)
+        if v:
+            o.violations.append(v)
+    o.monitor_stats["remote_transport_scenarios"] = n_remote
+    # known findings: replay the witnesses
+    for f in common.known_findings()["findings"]:
+        if f["property"] != "C04":
+            continue
+        sc = scorr.normalise(f["witness"]["scenario"])
+        v, _ = dt.cross_config(sc, rng)
+        n, comp, v2 = dt.check_scenario_interleavings(sc, 60)
+        o.monitor_stats["known_finding_replays"] = o.monitor_stats.get("known_finding_replays", 0) + 1
+        if v or v2:
+            o.violations.append({"law": "configurations / interleavings differ", "finding": f["id"], "scenario": f["witness"]["scenario"]})
+    o.monitor_stats["impl_monitor_violations"] = len(o.violations)
+    o.samples = res.get("samples", [])
+
+
+PROPERTIES["C04"] = {"run": _c04, "assumptions": [
+    "deterministic simulators: the scripted behaviour is a function of the simulator's identity, step time and sub-step index",
+    "only the lazy-stepping facet is a theorem (every lazy run is an eager run); schedule, start-order, cache, debug and transport independence are decided by exhaustive enumeration of reply interleavings of small scenarios and by cross-configuration runs on the real scheduler",
+    "where a data-flow finding of C03 applies, configurations legitimately differ (listed as known findings of C04 as well)"]}
